@@ -19,6 +19,15 @@ pub struct GenericLightGraph<TI: TermIndex> {
     triples: BTreeSet<[TI::Index; 3]>,
 }
 
+/// Verification hook (compiled only with `--cfg sophia_verif`).
+#[cfg(sophia_verif)]
+impl<I: Index> GenericLightGraph<SimpleTermIndex<I>> {
+    /// See [`SimpleTermIndex::verif_audit`].
+    pub fn verif_audit(&self) -> Vec<(bool, bool)> {
+        self.terms.verif_audit()
+    }
+}
+
 impl<TI: TermIndex + Default> GenericLightGraph<TI> {
     /// Construct an empty graph
     pub fn new() -> Self {
@@ -153,6 +162,15 @@ pub struct GenericFastGraph<TI: TermIndex> {
     spo: BTreeSet<[TI::Index; 3]>,
     pos: BTreeSet<[TI::Index; 3]>,
     osp: BTreeSet<[TI::Index; 3]>,
+}
+
+/// Verification hook (compiled only with `--cfg sophia_verif`).
+#[cfg(sophia_verif)]
+impl<I: Index> GenericFastGraph<SimpleTermIndex<I>> {
+    /// See [`SimpleTermIndex::verif_audit`].
+    pub fn verif_audit(&self) -> Vec<(bool, bool)> {
+        self.terms.verif_audit()
+    }
 }
 
 impl<TI: TermIndex + Default> GenericFastGraph<TI> {
